@@ -29,6 +29,7 @@ LEVEL_NOTE = ('Trusted: the pyvc encoding of Python (cross-checked against CPyth
 TECHNIQUE = 'contract on Logix.reply_elements + inductive lemmas over the contract, VCs from the real AST, z3/cvc5; bounded fragment walks as stand-in'
 
 TRUSTED = [
+    'producer contracts shared with C01 / C07 carry their assumptions (nested producers as opaque byte strings)',
     'T3 env models of Logix.reply_elements: data[context].get(..), len(attribute), attribute.parser.struct_calcsize, '
     'resolve_element(data.path) read as declared (cross-checked on real dotdict/Attribute objects every run)',
     'reassembly lemma: the client-side loop (advance the byte offset by the bytes received) is a ghost loop in the contract file',
